@@ -154,7 +154,17 @@ REUSE_TOOL = Contract(
 
 # ---------------------------------------------------------------- incompatible workers are skipped, the others still get the step
 def skip_block(fn):
-    found = [n for n in ast.walk(fn) if isinstance(n, ast.If) and ast.unparse(n.test) == "len(nodes) == 0"]
+    """the `if` that follows `nodes = graph.parse_composite_nodes(...)` (found by position, not by the spelling of its test)"""
+    found = []
+    for n in ast.walk(fn):
+        for field in ("body", "orelse", "finalbody"):
+            stmts = getattr(n, field, None)
+            if not isinstance(stmts, list):
+                continue
+            for a, b in zip(stmts, stmts[1:]):
+                if isinstance(a, ast.Assign) and isinstance(a.value, ast.Call) and isinstance(b, ast.If) \
+                        and ast.unparse(a.value.func).endswith("parse_composite_nodes"):
+                    found.append(b)
     return found[:1] if len(found) == 1 else []
 
 
